@@ -1,10 +1,11 @@
 """C09 -- integer constant expressions in a cdef evaluate as C evaluates them.
 
 E1: every expression tree of a bounded family over a literal alphabet (decimal,
-octal, hex, u/l suffixes, character constants) and the operators
-unary + -, + - * / % << >> & | ^, printed with minimal parentheses (so that
-precedence and associativity are exercised), placed in every usage site of the
-statement (enumerator, array length, bitfield width; '#define' and
+octal, hex, u/l suffixes, character constants), names of earlier constants, and
+the operators unary + -, + - * / % << >> & | ^, printed with minimal parentheses
+(so that precedence and associativity are exercised; one family also densely,
+fully parenthesised and with comments between the tokens), placed in every usage
+site of the statement (enumerator, array length, bitfield width; '#define' and
 'static const' for literals) and read back in in-line, out-of-line ABI and
 compiled API mode.
 
@@ -30,18 +31,26 @@ ID = "C09"
 LEVEL = "exploration"
 META = dict(
     engine="E1-enum", level="exploration",
-    technique="bounded exhaustive enumeration of integer constant expression trees over a literal/operator alphabet, "
-              "each placed in every usage site and read back in 3 modes, with gcc as value oracle and a typed C "
-              "evaluator (itself checked against gcc) to exclude undefined behaviour",
-    text="All expressions of four families (all literals with up to two unary signs; all binary operations over signed "
-         "literal atoms; all trees of depth <= 2 over a literal subset; thorough: all parenthesis-free chains of three "
-         "binary operators) "
-         "are written into enum/array/bitfield declarations (literals also into #define and static const), parsed by "
+    technique="bounded exhaustive enumeration of integer constant expression trees over a literal/name/operator "
+              "alphabet, each placed in every usage site and read back in 3 modes, with gcc as value oracle and a "
+              "typed C evaluator (itself checked against gcc) to exclude undefined behaviour",
+    text="All expressions of these families: all literals and all 93 + 12 character constants with up to two unary "
+         "signs; all binary operations over signed literal atoms; all trees of depth <= 2 over a literal subset; "
+         "thorough: all parenthesis-free chains of three binary operators; all binary operations in which an operand is "
+         "the NAME of an earlier constant (#define, enumerator incl. implicit values and enumerators of the enum being "
+         "declared, static const), the names being declared in the same cdef() call, in an earlier call or in an "
+         "include()d FFI; the trees of depth <= 2 printed in three more ways (dense, fully parenthesised, a comment "
+         "between every two tokens).  They "
+         "are written into enum/array/bitfield declarations (array lengths up to 2^62; some families also as inner "
+         "dimension, pointed-to array, parameter array and int bitfield; literals also into #define and static const "
+         "over 20 spellings of an integer type and 3 declaration forms), parsed by "
          "cdef() and read back through lib.X, integer_const, ctype.length/sizeof and bitsize in in-line, out-of-line "
          "ABI and API mode; each must equal the value gcc computes for the same text.  Expressions whose C evaluation "
-         "is undefined are excluded by a typed evaluator that agrees with gcc on value and type of every other one.",
+         "is undefined are excluded by a typed evaluator that agrees with gcc on value and type of every other one.  "
+         "Duration: quick about 75 s, thorough about 6 min on the idle 16-core machine.",
     note="gcc 12 on this machine is the authority (int 32 bits, long 64 bits, plain char signed; >> of a negative "
-         "value is arithmetic); signed << overflow, negative << and out-of-range shift counts are treated as undefined")
+         "value is arithmetic); signed << overflow, negative << and out-of-range shift counts are treated as undefined; "
+         "a 'static const T NAME' mentioned in a later expression is given to gcc as the cast literal it stands for")
 
 # ---------------------------------------------------------------------------------------
 # alphabets
@@ -50,7 +59,7 @@ L20 = ["0", "1", "2", "7", "010", "0x1F", "0xFFFFFFFF", "2147483647", "214748364
        "1u", "2U", "3l", "5UL", "7ull", "'a'", "'\\n'", "'\\\\'", "'\\''", "'\\0'"]
 LX = ["00", "0X1f", "0x7fffffff", "0x80000000", "017777777777", "037777777777", "0xffffffffffffffff",
       "0x7FFFFFFFFFFFFFFF", "0x8000000000000000", "9223372036854775807", "4294967296", "1lu", "1LLU",
-      "10uLL", "0l", "0u",
+      "10uLL", "0l", "0u", "5LL", "5ll", "0XFFul",
       "'\\t'", "'\\r'", "'\\v'", "'\\f'", "'\\a'", "'\\b'", "'\\?'", "'~'", "' '"]
 # operands that need more than 53 bits (a float detour loses them) and their small partners
 BIG = ["0x7FFFFFFFFFFFFFFF", "9223372036854775807", "9007199254740993", "9007199254740995", "0x20000000000001",
@@ -64,29 +73,102 @@ S3_THOROUGH = ["1", "7", "0x1F", "2147483647"]
 S4_LITS = ["2", "7"]
 CONST_TYPES = ["int", "unsigned int", "long", "unsigned long", "long long", "unsigned long long", "short",
                "unsigned char"]
+# audit gap 3: more spellings of 'an integer type' (cparser folds the constant iff tp.is_integer_type():
+# the kind letter of every one of these decides which branch a declaration takes)
+CONST_TYPES2 = ["signed char", "_Bool", "int8_t", "uint64_t", "size_t", "ssize_t", "intptr_t", "unsigned",
+                "long int", "int_least8_t", "uint_fast16_t", "td_u16b"]
+CONST_PRELUDE = "typedef unsigned short td_u16;\ntypedef td_u16 td_u16b;\n"
+CONST_INCLUDES = "#include <stdint.h>\n#include <stddef.h>\n#include <sys/types.h>\n"
+FORM0 = "static const %s %s = %s;\n"
+FORMS_EXTRA = ["const %s %s = %s;\n", "static %s const %s = %s;\n"]       # for FORM_TYPES only
+FORM_TYPES = ["int", "unsigned long long", "td_u16b"]
 BLOCK = 600
 MODES = ("inline", "abi", "api")
 
-# expression nodes: ("L", text) | ("U", op, e) | ("B", op, l, r)
+# audit gap 1: names of earlier constants as leaves.  (cdef text, C text, type, value); in C a
+# 'static const' object is not an integer constant expression, so the reference side spells it as the
+# cast literal it stands for (same value, same type after the integer promotions: hence the '+')
+NAMEDEFS = [
+    ("#define N8 010\n", "#define N8 010\n", {"N8": ("int", 8)}),
+    ("#define NM -3\n", "#define NM -3\n", {"NM": ("int", -3)}),
+    ("#define NL 4294967296\n", "#define NL 4294967296\n", {"NL": ("long", 4294967296)}),
+    ("enum pre { P5 = 5, P6 };\n", "enum pre { P5 = 5, P6 };\n", {"P5": ("int", 5), "P6": ("int", 6)}),
+    ("enum pre2 { PN = -2, PZ };\n", "enum pre2 { PN = -2, PZ };\n", {"PN": ("int", -2), "PZ": ("int", -1)}),
+    ("static const int S6 = 6;\n", "#define S6 ((int)6)\n", {"S6": ("int", 6)}),
+    ("static const unsigned char UC = 200;\n", "#define UC (+(unsigned char)200)\n", {"UC": ("int", 200)}),
+    ("static const long long SL = -5;\n", "#define SL ((long long)-5)\n", {"SL": ("long long", -5)}),
+]
+PRELUDE_CDEF = "".join(d[0] for d in NAMEDEFS)
+PRELUDE_C = "".join(d[1] for d in NAMEDEFS)
+NAMES = {}
+for _d in NAMEDEFS:
+    NAMES.update(_d[2])
+NAME_LIST = ["N8", "NM", "NL", "P5", "P6", "PN", "PZ", "S6", "UC", "SL"]
+I1_QUICK_NAMES = ["N8", "NM", "P6", "PZ", "S6", "UC"]     # quick: name op name over these,
+I1_QUICK_LIT = "7"                                          # every name with this literal (both orders),
+I1_QUICK_U = (["NM", "NL", "P5", "SL"], "1u")               # and these names with an unsigned literal
+I1_THOROUGH = ["0", "1", "2", "7", "010", "0x1F", "2147483647", "1u"]
+I3_QUICK = ["P6"]                         # quick: all trees with at most 2 operators over this leaf
+I3_THOROUGH = ["2", "NM"]
+IV_QUICK = (["7"], ("+", "/"))            # partners of the names in the 'earlier call' / 'included' variants,
+IV_THOROUGH = (["2", "7", "1u"], ("+", "-", "*", "/", "%"))       # and the operators between two names
+VARIANTS = (None, "same", "earlier", "included")
+PRINTERS = ("min", "dense", "paren", "comment")
+P_QUICK_A = ["2", "7"]                    # printers: all trees of depth <= 1 over these ...
+P_QUICK_B = ["7"]                         # ... and all trees with at most 2 operators over these
+P_THOROUGH = ["2", "7"]
+# audit gap 5: every printable character as a plain character constant, and the 12 simple escapes
+PLAIN_CHARS = [chr(c) for c in range(32, 127) if chr(c) not in "'\\"]
+CHAR_LITS = ["'%s'" % c for c in PLAIN_CHARS] + ["'\\%s'" % c for c in "ntr0\\'\"abfv?"]
+
+# expression nodes: ("L", text) | ("N", name) | ("U", op, e) | ("B", op, l, r)
 
 
 def lit(t):
-    return ("L", t)
+    return ("N", t) if t in NAMES else ("L", t)
 
 
-def text_of(e):
+def text_of(e, printer="min"):
+    """The C text of a tree.  Printer "min": minimal parentheses, single blanks (the only printer of the
+    original families).  Audit gap 4: "dense" (same tokens, no blank unless two signs would fuse into
+    '--' / '++'), "paren" (every operand and every operation parenthesised, no blanks), "comment" (the
+    "min" tokens with a comment between every two tokens, alternately /*+1*/ and //+1 up to a line break:
+    a comment that is not removed changes the value or the syntax)."""
+    if printer == "min":
+        return _text_min(e)
+    if printer == "paren":
+        s = _text_paren(e)
+        return "(%s)" % s if e[0] in "LN" else s
+    toks = _tokens(e)
+    if printer == "dense":
+        out = [toks[0]]
+        for t in toks[1:]:
+            if out[-1][-1] == t[0] and t[0] in "+-":
+                out.append(" ")
+            out.append(t)
+        return "".join(out)
+    if printer == "comment":
+        out = [toks[0]]
+        for k, t in enumerate(toks[1:]):
+            out.append(" /*+1*/ " if k % 2 == 0 else " //+1\n ")
+            out.append(t)
+        return "".join(out)
+    raise InfraError("unknown printer %r" % (printer,))
+
+
+def _text_min(e):
     k = e[0]
-    if k == "L":
+    if k in "LN":
         return e[1]
     if k == "U":
-        s = text_of(e[2])
+        s = _text_min(e[2])
         if e[2][0] == "B":
             return "%s(%s)" % (e[1], s)
         if s[0] == e[1]:
             return "%s %s" % (e[1], s)        # never print '--' or '++'
         return e[1] + s
     p = PREC[e[1]]
-    ls, rs = text_of(e[2]), text_of(e[3])
+    ls, rs = _text_min(e[2]), _text_min(e[3])
     if e[2][0] == "B" and PREC[e[2][1]] < p:
         ls = "(%s)" % ls
     if e[3][0] == "B" and PREC[e[3][1]] <= p:
@@ -94,8 +176,45 @@ def text_of(e):
     return "%s %s %s" % (ls, e[1], rs)
 
 
-def nops(e):
+def _tokens(e):
+    """The token sequence of the "min" printer."""
+    k = e[0]
+    if k in "LN":
+        return [e[1]]
+    if k == "U":
+        s = _tokens(e[2])
+        return [e[1]] + (["("] + s + [")"] if e[2][0] == "B" else s)
+    p = PREC[e[1]]
+    ls, rs = _tokens(e[2]), _tokens(e[3])
+    if e[2][0] == "B" and PREC[e[2][1]] < p:
+        ls = ["("] + ls + [")"]
+    if e[3][0] == "B" and PREC[e[3][1]] <= p:
+        rs = ["("] + rs + [")"]
+    return ls + [e[1]] + rs
+
+
+def _text_paren(e):
+    k = e[0]
+    if k in "LN":
+        return "(%s)" % e[1]
+    if k == "U":
+        return "(%s%s)" % (e[1], _text_paren(e[2]))
+    return "(%s%s%s)" % (_text_paren(e[2]), e[1], _text_paren(e[3]))
+
+
+def names_in(e):
+    if e[0] == "N":
+        return {e[1]}
     if e[0] == "L":
+        return set()
+    r = set()
+    for x in e[2:]:
+        r |= names_in(x)
+    return r
+
+
+def nops(e):
+    if e[0] in "LN":
         return 0
     return 1 + sum(nops(x) for x in e[2:])
 
@@ -120,6 +239,17 @@ def trees_depth2_one_deep_child(lits):
     return out
 
 
+def trees_maxops(lits, n):
+    """All trees with at most n operators (unary and binary)."""
+    by = [[lit(t) for t in lits]]
+    for k in range(1, n + 1):
+        cur = [("U", op, e) for op in UNOPS for e in by[k - 1]]
+        for j in range(k):
+            cur += [("B", op, a, b) for op in BINOPS for a in by[j] for b in by[k - 1 - j]]
+        by.append(cur)
+    return [e for lvl in by for e in lvl]
+
+
 def trees_binops(lits, n):
     """All trees with exactly n binary operators (no unary) over the literals."""
     if n == 0:
@@ -132,33 +262,88 @@ def trees_binops(lits, n):
 
 
 def families(ctx):
+    """-> [(label, (variant, more_sites), [(tree, printer), ...])].  `variant`: None = no names; "same" /
+    "earlier" / "included" = where the prelude that defines the names is declared.  `more_sites`: also
+    placed as inner array dimension, pointed-to array length, parameter array length and 'int' bitfield."""
     fam = []
+
+    def add(label, nodes, variant=None, more=False, printer="min"):
+        fam.append((label, (variant, more), [(e, printer) for e in nodes]))
     allit = L20 + LX
     s0 = [lit(t) for t in allit]
     s0 += [("U", op, lit(t)) for op in UNOPS for t in allit]
     s0 += [("U", o1, ("U", o2, lit(t))) for o1 in UNOPS for o2 in UNOPS for t in allit]
-    fam.append(("S0 literals (%d) with 0..2 unary signs" % len(allit), s0))
+    add("S0 literals (%d) with 0..2 unary signs" % len(allit), s0, more=True)
+    sc = [lit(t) for t in CHAR_LITS]
+    sc += [("U", op, lit(t)) for op in UNOPS for t in CHAR_LITS]
+    if not ctx.quick:
+        sc += [("U", o1, ("U", o2, lit(t))) for o1 in UNOPS for o2 in UNOPS for t in CHAR_LITS]
+    add("C0 the %d plain printable character constants and the %d simple escapes, with 0..%d unary signs"
+        % (len(PLAIN_CHARS), len(CHAR_LITS) - len(PLAIN_CHARS), 1 if ctx.quick else 2), sc, more=True)
     sx = [("B", op, lit(a), lit(b)) for op in BINOPS for a in BIG for b in SMALL]
     sx += [("B", op, lit(b), lit(a)) for op in BINOPS for a in BIG for b in SMALL]
     sx += [("B", op, lit(a), lit(b)) for op in BINOPS for a in BIG for b in BIG]
     sx += [("B", op, ("U", "-", lit(a)), lit(b)) for op in ("/", "%", "*", ">>") for a in BIG for b in SMALL]
-    fam.append(("S1x all binary operations between %d literals beyond 53 bits and %d small ones (both orders), and "
-                "among the big ones" % (len(BIG), len(SMALL)), sx))
+    add("S1x all binary operations between %d literals beyond 53 bits and %d small ones (both orders), and "
+        "among the big ones" % (len(BIG), len(SMALL)), sx)
     if ctx.quick:
         s1 = [("B", op, lit(a), lit(b)) for op in BINOPS for a in L20 for b in L20]
-        fam.append(("S1 all binary operations over the 20 literals", s1))
-        fam.append(("S3 all trees of depth <= 2 over literals %s except binary roots with two binary children"
-                    % S3_QUICK, trees_depth2_one_deep_child(S3_QUICK)))
+        add("S1 all binary operations over the 20 literals", s1)
+        add("S3 all trees of depth <= 2 over literals %s except binary roots with two binary children"
+            % S3_QUICK, trees_depth2_one_deep_child(S3_QUICK))
     else:
         atoms = [lit(t) for t in L20] + [("U", op, lit(t)) for op in UNOPS for t in L20]
         s2 = [("B", op, a, b) for op in BINOPS for a in atoms for b in atoms]
-        fam.append(("S2 all binary operations over atoms {l, -l, +l}, l in the 20 literals", s2))
-        fam.append(("S3 ALL trees of depth <= 2 over literals %s" % S3_QUICK, trees_depth(S3_QUICK, 2)))
-        fam.append(("S3b all trees of depth <= 2 over literals %s except binary roots with two binary children"
-                    % S3_THOROUGH, trees_depth2_one_deep_child(S3_THOROUGH)))
+        add("S2 all binary operations over atoms {l, -l, +l}, l in the 20 literals", s2)
+        add("S3 ALL trees of depth <= 2 over literals %s" % S3_QUICK, trees_depth(S3_QUICK, 2))
+        add("S3b all trees of depth <= 2 over literals %s except binary roots with two binary children"
+            % S3_THOROUGH, trees_depth2_one_deep_child(S3_THOROUGH))
         s4 = [e for e in trees_binops(S4_LITS, 3) if "(" not in text_of(e)]
-        fam.append(("S4 all parenthesis-free chains 'a op b op c op d' (depth 3) over literals %s, as grouped by C "
-                    "precedence and associativity" % S4_LITS, s4))
+        add("S4 all parenthesis-free chains 'a op b op c op d' (depth 3) over literals %s, as grouped by C "
+            "precedence and associativity" % S4_LITS, s4)
+    # ---- names of earlier constants as leaves (audit gap 1)
+    i1 = [lit(t) for t in NAME_LIST] + [("U", op, lit(t)) for op in UNOPS for t in NAME_LIST]
+    i1 += [("U", o1, ("U", o2, lit(t))) for o1 in UNOPS for o2 in UNOPS for t in NAME_LIST]
+    if ctx.quick:
+        pairs = [(a, b) for a in I1_QUICK_NAMES for b in I1_QUICK_NAMES]
+        pairs += [p for a in NAME_LIST for p in ((a, I1_QUICK_LIT), (I1_QUICK_LIT, a))]
+        pairs += [p for a in I1_QUICK_U[0] for p in ((a, I1_QUICK_U[1]), (I1_QUICK_U[1], a))]
+        i1 += [("B", op, lit(a), lit(b)) for op in BINOPS for a, b in pairs]
+        add("I1 the %d names with 0..2 unary signs and all binary operations between two of the names %s, between "
+            "every name and %s and between each of %s and %s (both orders); prelude in the same cdef() call" % (
+                len(NAME_LIST), I1_QUICK_NAMES, I1_QUICK_LIT, I1_QUICK_U[0], I1_QUICK_U[1]), i1, variant="same")
+        add("I3 all trees with at most 2 operators over the leaf %s; prelude in the same cdef() call" % I3_QUICK,
+            trees_maxops(I3_QUICK, 2), variant="same")
+    else:
+        leaves = NAME_LIST + I1_THOROUGH
+        i1 += [("B", op, lit(a), lit(b)) for op in BINOPS for a in leaves for b in leaves
+               if a in NAMES or b in NAMES]
+        add("I1 the %d names with 0..2 unary signs and all binary operations between a name and a name or one of "
+            "the literals %s (both orders); prelude in the same cdef() call" % (len(NAME_LIST), I1_THOROUGH),
+            i1, variant="same")
+        add("I3 all trees of depth <= 2 over leaves %s except binary roots with two binary children; prelude in "
+            "the same cdef() call" % I3_THOROUGH, trees_depth2_one_deep_child(I3_THOROUGH), variant="same")
+    ivl, ivo = IV_QUICK if ctx.quick else IV_THOROUGH
+    iv = [lit(t) for t in NAME_LIST] + [("U", "-", lit(t)) for t in NAME_LIST]
+    iv += [("B", op, lit(a), lit(b)) for op in BINOPS for a in NAME_LIST for b in ivl]
+    iv += [("B", op, lit(b), lit(a)) for op in ("-", "/", "%", "<<") for a in NAME_LIST for b in ivl]
+    iv += [("B", op, lit(a), lit(b)) for op in ivo for a in NAME_LIST for b in NAME_LIST]
+    for v in ("earlier", "included"):
+        add("I%s the %d names, their negations, every operation 'name op l', 'l - / %% << name' for l in %s "
+            "and 'name %s name'; prelude in an %s" % (
+                v[0].upper(), len(NAME_LIST), ivl, " ".join(ivo),
+                "earlier cdef() call of the same FFI" if v == "earlier" else "FFI that is include()d"),
+            iv, variant=v, more=True)
+    # ---- other spellings of the same token sequence (audit gap 4)
+    if ctx.quick:
+        pt = trees_depth(P_QUICK_A, 1) + trees_maxops(P_QUICK_B, 2)
+        plabel = "all trees of depth <= 1 over %s and all trees with at most 2 operators over %s" % (
+            P_QUICK_A, P_QUICK_B)
+    else:
+        pt = trees_depth2_one_deep_child(P_THOROUGH)
+        plabel = "all trees of depth <= 2 over %s except binary roots with two binary children" % P_THOROUGH
+    for pr in PRINTERS[1:]:
+        add("P-%s %s, printed by the '%s' printer" % (pr, plabel, pr), pt, printer=pr)
     return fam
 
 
@@ -287,6 +472,9 @@ def _evaluate(e, stats):
     k = e[0]
     if k == "L":
         return literal(e[1])
+    if k == "N":
+        tn, v = NAMES[e[1]]
+        return TNAME.index(tn), v, frozenset(["name"])
     T = types()
     if k == "U":
         t, v, fl = evaluate(e[2], stats)
@@ -393,45 +581,84 @@ def _sv(neg, u):
     return u - (1 << 64) if neg else u
 
 
-def gcc_values(items):
-    """items: [(idx, text, sites)] -> {idx: dict(value, size, signed, enum, array, bits)}"""
-    decl, cells, bfd, bfi = [], [], [], []
+NCELL = 12
+_r_pname = re.compile(r"\b(P[56])\b")
+
+
+def same_enum_text(i, t):
+    """'enum sN { P5_N = 5, P6_N, B_N = E, C_N }': E mentions enumerators of the enum being declared."""
+    return "enum s%d { P5_%d = 5, P6_%d, B_%d = %s, C_%d };\n" % (i, i, i, i, _r_pname.sub(r"\1_%d" % i, t), i)
+
+
+def gcc_values(items, variant=None):
+    """items: [(idx, text, sites)] -> {idx: {"value", "size", "signed", site: value...}}"""
+    decl, cells, bfd, bfi, bgd, bgi = [], [], [], [], [], []
     for i, t, sites in items:
         decl.append("enum e%d { A_%d = %s };\n" % (i, i, t))
         c = ["(%s) < 0" % t, "(unsigned long long)(%s)" % t, "sizeof(%s)" % t,
              "((__typeof__(%s))-1) < 0" % t, "A_%d < 0" % i, "(unsigned long long)A_%d" % i]
-        if "array" in sites:
+        if "array" in sites or "bigarray" in sites:
             decl.append("struct a%d { char a[%s]; char z; };\n" % (i, t))
             c.append("sizeof(((struct a%d *)0)->a)" % i)
         else:
             c.append("0")
+        if "array2" in sites:
+            decl.append("struct c%d { char m[2][%s]; char (*p)[%s]; void (*f)(char (*)[%s]); };\n" % (i, t, t, t))
+            c.append("sizeof(((struct c%d *)0)->m) / 2" % i)
+            c.append("sizeof(*((struct c%d *)0)->p)" % i)
+        else:
+            c += ["0", "0"]
+        if "enum_same" in sites:
+            decl.append(same_enum_text(i, t))
+            c += ["B_%d < 0" % i, "(unsigned long long)B_%d" % i, "(unsigned long long)(C_%d - 1 - B_%d)" % (i, i)]
+        else:
+            c += ["0", "0", "0"]
         if "bitfield" in sites:
             decl.append("struct b%d { unsigned long long f : %s; };\n" % (i, t))
             bfd.append("struct b%d x%d;" % (i, i))
             bfi.append("{ ~0ULL }")
+        if "bitfield_int" in sites:
+            decl.append("struct d%d { int g : %s; };\n" % (i, t))
+            bgd.append("struct d%d x%d;" % (i, i))
+            bgi.append("{ -1 }")
+        if len(c) != NCELL:
+            raise InfraError("cell count")
         cells.append(", ".join(c))
-    src = "".join(decl) + "const unsigned long long c09_tab[] = {\n" + ",\n".join(cells) + "\n};\n"
+    src = (PRELUDE_C if variant else "") + "".join(decl)
+    src += "const unsigned long long c09_tab[] = {\n" + ",\n".join(cells) + "\n};\n"
     if bfd:
         src += "const struct { %s } c09_bits = { %s };\n" % (" ".join(bfd), ", ".join(bfi))
+    if bgd:
+        src += "const struct { %s } c09_bits2 = { %s };\n" % (" ".join(bgd), ", ".join(bgi))
     so = cref.compile_so(src, flags=["-std=gnu11"], name="c09ref")
     lib = ctypes.CDLL(so)
-    tab = list((ctypes.c_ulonglong * (7 * len(items))).in_dll(lib, "c09_tab"))
+    tab = list((ctypes.c_ulonglong * (NCELL * len(items))).in_dll(lib, "c09_tab"))
     bits = list((ctypes.c_ulonglong * len(bfd)).in_dll(lib, "c09_bits")) if bfd else []
+    bits2 = list((ctypes.c_uint * len(bgd)).in_dll(lib, "c09_bits2")) if bgd else []
     for fn in (so, so + ".c"):
         try:
             os.unlink(fn)
         except OSError:
             pass
     res = {}
-    nb = 0
+    nb = ng = 0
     for k, (i, t, sites) in enumerate(items):
-        c = tab[7 * k:7 * k + 7]
+        c = tab[NCELL * k:NCELL * k + NCELL]
         r = {"value": _sv(c[0], c[1]), "size": c[2], "signed": bool(c[3]), "enum": _sv(c[4], c[5])}
         if "array" in sites:
             r["array"] = c[6]
+        if "bigarray" in sites:
+            r["bigarray"] = c[6]
+        if "array2" in sites:
+            r["array2"] = c[7] if c[7] == c[8] else ("differ", c[7], c[8])
+        if "enum_same" in sites:
+            r["enum_same"] = _sv(c[9], c[10]) if c[11] == 0 else ("next", c[11])
         if "bitfield" in sites:
             r["bitfield"] = bin(bits[nb]).count("1")
             nb += 1
+        if "bitfield_int" in sites:
+            r["bitfield_int"] = bin(bits2[ng]).count("1")
+            ng += 1
         res[i] = r
     return res
 
@@ -453,12 +680,12 @@ def _err(e):
     return "error:%s: %s" % (type(e).__name__, str(e)[:160])
 
 
-_r_ident = re.compile(r"(?:struct[ _][ab]|enum[ _]e|\bA_)(\d+)\b")
+_r_ident = re.compile(r"(?:struct[ _][abcd]|enum[ _][es]|\b[ABC]_|\bt[abpf])(\d+)\b")
 
 
 def culprits(exc, items):
     """Declarations named in an exception message / in gcc's diagnostics (batching aid only)."""
-    have = set(i for i, _, _ in items)
+    have = set(it[0] for it in items)
     return set(int(m.group(1)) for m in _r_ident.finditer(str(exc))) & have
 
 
@@ -480,58 +707,110 @@ def compile_api(f, name, csource, d):
     return so
 
 
-def open_mode(mode, text, tag, reuse=None):
+def make_ffi(text, variant):
+    """The FFI that has parsed `text`; with names, the prelude that defines them is declared in the same
+    cdef() call, in an earlier call, or in another FFI that is include()d."""
+    import cffi
+    f = cffi.FFI()
+    f._c09_base = None
+    if variant is None:
+        f.cdef(text)
+    elif variant == "same":
+        f.cdef(PRELUDE_CDEF + text)
+    elif variant == "earlier":
+        f.cdef(PRELUDE_CDEF)
+        f.cdef(text)
+    elif variant == "included":
+        b = cffi.FFI()
+        b.cdef(PRELUDE_CDEF)
+        f.include(b)
+        f.cdef(text)
+        f._c09_base = b
+    else:
+        raise InfraError("unknown variant %r" % (variant,))
+    return f
+
+
+def _unlink(*files):
+    for fn in files:
+        try:
+            os.unlink(fn)
+        except OSError:
+            pass
+
+
+def open_mode(mode, text, tag, reuse=None, variant=None, csource_prefix=""):
     """One FFI of the given mode over the declarations -> (ffi, lib, has_integer_const).
     `reuse`: an in-line FFI that already parsed exactly `text` (out-of-line ABI only)."""
-    import cffi
-    if reuse is not None:
-        f = reuse
-    else:
-        f = cffi.FFI()
-        f.cdef(text)
+    import sys
+    f = reuse if reuse is not None else make_ffi(text, variant)
     if mode == "inline":
         return f, f.dlopen(None), False
     d = os.path.join(build.scratch(), "c09")
     os.makedirs(d, exist_ok=True)
     name = "c09_%s_%s_%d_%d" % (tag, mode, os.getpid(), next(_modcount))
+    base = getattr(f, "_c09_base", None)
+    if base is not None and d not in sys.path:
+        sys.path.insert(0, d)           # the module of an include()d FFI is imported by name
     if mode == "abi":
-        f.set_source(name, None)
-        f.compile(tmpdir=d, verbose=0)
-        py = os.path.join(d, name + ".py")
-        m = _import(name, py)
-        os.unlink(py)
-        return m.ffi, m.ffi.dlopen(None), True
-    so = compile_api(f, name, text, d)
-    m = _import(name, so)
-    for fn in (so, os.path.join(d, name + ".c")):
+        junk = []
         try:
-            os.unlink(fn)
-        except OSError:
-            pass
+            if base is not None:
+                base.set_source(name + "_base", None)
+                base.compile(tmpdir=d, verbose=0)
+                junk.append(os.path.join(d, name + "_base.py"))
+            f.set_source(name, None)
+            f.compile(tmpdir=d, verbose=0)
+            py = os.path.join(d, name + ".py")
+            junk.append(py)
+            m = _import(name, py)
+        finally:
+            _unlink(*junk)
+        return m.ffi, m.ffi.dlopen(None), True
+    junk = []
+    try:
+        if base is not None:
+            junk.append(os.path.join(d, name + "_base.c"))
+            junk.append(compile_api(base, name + "_base", csource_prefix + PRELUDE_C, d))
+        junk.append(os.path.join(d, name + ".c"))
+        so = compile_api(f, name, csource_prefix + (PRELUDE_C if variant else "") + text, d)
+        junk.append(so)
+        m = _import(name, so)
+    finally:
+        _unlink(*junk)
     return m.ffi, m.lib, True
 
 
 def decl_text(items, mode="inline"):
-    """The declarations of a block.  In API mode the array is a typedef (no generated checking
-    function per declaration: several times cheaper to compile); in the two ABI modes it is a
-    struct member (the in-line parser re-declares every typedef name on each typeof() call)."""
+    """The declarations of a block.  In API mode the arrays are typedefs (no generated checking
+    function per declaration: several times cheaper to compile); in the two ABI modes they are
+    struct members (the in-line parser re-declares every typedef name on each typeof() call).
+    A length >= 2^31 ("bigarray") is not declared in out-of-line ABI mode: cffi_opcode.py documents
+    that its emitter refuses such a module as a whole (OverflowError), see run_abi()."""
     out = []
     for i, t, sites in items:
         out.append("enum e%d { A_%d = %s };\n" % (i, i, t))
-        if "array" in sites:
+        if "array" in sites or ("bigarray" in sites and mode != "abi"):
             if mode == "api":
                 out.append("typedef char ta%d[%s];\n" % (i, t))
             else:
                 out.append("struct a%d { char a[%s]; char z; };\n" % (i, t))
+        if "array2" in sites:
+            if mode == "api":
+                out.append("typedef char tb%d[2][%s];\ntypedef char (*tp%d)[%s];\n"
+                           "typedef void (*tf%d)(char (*)[%s]);\n" % (i, t, i, t, i, t))
+            else:
+                out.append("struct c%d { char m[2][%s]; char (*p)[%s]; void (*f)(char (*)[%s]); };\n" % (i, t, t, t))
+        if "enum_same" in sites:
+            out.append(same_enum_text(i, t))
         if "bitfield" in sites:
             out.append("struct b%d { unsigned long long f : %s; };\n" % (i, t))
+        if "bitfield_int" in sites:
+            out.append("struct d%d { int g : %s; };\n" % (i, t))
     return "".join(out)
 
 
-def observe(ffi, lib, has_ic, i, sites, mode):
-    """-> {site: [observations]}; a site may be observed through several accessors, all must agree."""
-    o = {}
-    nm = "A_%d" % i
+def _const(ffi, lib, has_ic, nm):
     acc = []
     try:
         acc.append(getattr(lib, nm))
@@ -542,21 +821,50 @@ def observe(ffi, lib, has_ic, i, sites, mode):
             acc.append(ffi.integer_const(nm))
         except Exception as e:
             acc.append(_err(e))
-    o["enum"] = acc
-    if "array" in sites:
+    return acc
+
+
+def observe(ffi, lib, has_ic, i, sites, mode):
+    """-> {site: [observations]}; a site may be observed through several accessors, all must agree."""
+    o = {}
+    o["enum"] = _const(ffi, lib, has_ic, "A_%d" % i)
+    for site in ("array", "bigarray"):
+        if site in sites and not (site == "bigarray" and mode == "abi"):
+            try:
+                if mode == "api":
+                    ft = ffi.typeof("ta%d" % i)
+                else:
+                    ft = dict(ffi.typeof("struct a%d" % i).fields)["a"].type
+                o[site] = [ft.length, ffi.sizeof(ft)]
+            except Exception as e:
+                o[site] = [_err(e)]
+    if "array2" in sites:
         try:
             if mode == "api":
-                ft = ffi.typeof("ta%d" % i)
+                tm, tp, tf = ffi.typeof("tb%d" % i), ffi.typeof("tp%d" % i), ffi.typeof("tf%d" % i)
             else:
-                ft = dict(ffi.typeof("struct a%d" % i).fields)["a"].type
-            o["array"] = [ft.length, ffi.sizeof(ft)]
+                fl = dict(ffi.typeof("struct c%d" % i).fields)
+                tm, tp, tf = fl["m"].type, fl["p"].type, fl["f"].type
+            if tm.length != 2 or ffi.sizeof(tm) % 2 or len(tf.args) != 1:
+                o["array2"] = ["error:shape: %r %r %r" % (tm, tp, tf)]
+            else:
+                o["array2"] = [tm.item.length, ffi.sizeof(tm) // 2, tp.item.length, ffi.sizeof(tp.item),
+                               tf.args[0].item.length]
         except Exception as e:
-            o["array"] = [_err(e)]
+            o["array2"] = [_err(e)]
+    if "enum_same" in sites:
+        b, c = _const(ffi, lib, has_ic, "B_%d" % i), _const(ffi, lib, has_ic, "C_%d" % i)
+        o["enum_same"] = b + [x - 1 if isinstance(x, int) else x for x in c]
     if "bitfield" in sites:
         try:
             o["bitfield"] = [dict(ffi.typeof("struct b%d" % i).fields)["f"].bitsize]
         except Exception as e:
             o["bitfield"] = [_err(e)]
+    if "bitfield_int" in sites:
+        try:
+            o["bitfield_int"] = [dict(ffi.typeof("struct d%d" % i).fields)["g"].bitsize]
+        except Exception as e:
+            o["bitfield_int"] = [_err(e)]
     return o
 
 
@@ -566,18 +874,18 @@ def read_all(mode, ffi, lib, has_ic, items, want, out, seen=None):
         if seen is not None:
             seen[i] = o
         for site, got in o.items():
-            exp = want[i][site]
+            exp = want[i]
             if any(g != exp for g in got):
                 kind = "error" if any(isinstance(g, str) for g in got) else "value"
                 out.append((mode, i, site, kind, got, exp))
 
 
-def run_mode(mode, items, want, out, tag="x", seen=None):
+def run_mode(mode, items, want, out, tag="x", seen=None, variant=None):
     """items [(idx, text, sites)]; appends (mode, idx, site, kind, observed, expected) to out.
     If the declarations cannot be processed together the group is split until the
     declaration(s) responsible are alone.  Returns the FFI when everything opened at once."""
     try:
-        ffi, lib, has_ic = open_mode(mode, decl_text(items, mode), tag)
+        ffi, lib, has_ic = open_mode(mode, decl_text(items, mode), tag, variant=variant)
     except Exception as e:
         if len(items) == 1:
             out.append((mode, items[0][0], "all", "rejected", _err(e), None))
@@ -589,11 +897,11 @@ def run_mode(mode, items, want, out, tag="x", seen=None):
                 if it[0] in named:
                     out.append((mode, it[0], "all", "rejected",
                                 "error:generated C does not compile: " + _diag_for(e, it[0]), None))
-            run_mode(mode, [it for it in items if it[0] not in named], want, out, tag, seen)
+            run_mode(mode, [it for it in items if it[0] not in named], want, out, tag, seen, variant)
             return None
         h = len(items) // 2
-        run_mode(mode, items[:h], want, out, tag, seen)
-        run_mode(mode, items[h:], want, out, tag, seen)
+        run_mode(mode, items[:h], want, out, tag, seen, variant)
+        run_mode(mode, items[h:], want, out, tag, seen, variant)
         return None
     read_all(mode, ffi, lib, has_ic, items, want, out, seen)
     return ffi if mode == "inline" else None
@@ -609,11 +917,12 @@ def _diag_for(exc, i):
     return "see gcc output"
 
 
-def run_abi(items, want, out, ffi_inline, seen_inline):
-    """Out-of-line ABI: emit from the very FFI that was used in-line; if that fails as a whole,
+def run_abi(items, want, out, ffi_inline, seen_inline, variant=None):
+    """Out-of-line ABI: emit from the very FFI that was used in-line (unless that one holds an array of
+    2^31 or more items, which is not declared in this mode); if that fails as a whole,
     take apart: declarations whose in-line value already lies outside what the emitter can
     encode are run alone, the rest together (run_mode splits further if needed)."""
-    if ffi_inline is not None:
+    if ffi_inline is not None and not any("bigarray" in it[2] for it in items):
         try:
             ffi, lib, has_ic = open_mode("abi", None, "x", reuse=ffi_inline)
         except Exception:
@@ -627,86 +936,128 @@ def run_abi(items, want, out, ffi_inline, seen_inline):
         ok = isinstance(v, int) and -2 ** 63 <= v < 2 ** 64 and ("array" not in it[2] or 0 <= v < 2 ** 31)
         (rest if ok else alone).append(it)
     for it in alone:
-        run_mode("abi", [it], want, out)
+        run_mode("abi", [it], want, out, variant=variant)
     if rest:
-        run_mode("abi", rest, want, out)
+        run_mode("abi", rest, want, out, variant=variant)
 
 
-def sites_for(v):
+def sites_for(v, e=None, more=False):
     s = ["enum"]
     if 0 <= v < 2 ** 31:
         s.append("array")
+    elif 2 ** 31 <= v < 2 ** 62:
+        s.append("bigarray")            # audit gap 2: in-line and API mode have no 2^31 limit
     if 1 <= v <= 64:
         s.append("bitfield")
+    if more:                            # audit gap 6
+        if 1 <= v < 2 ** 30:
+            s.append("array2")
+        if 1 <= v <= 32:
+            s.append("bitfield_int")
+    if e is not None and -2 ** 31 <= v < 2 ** 31 - 1 and names_in(e) & {"P5", "P6"}:
+        s.append("enum_same")           # audit gap 1: enumerators of the enum being declared
     return s
 
 
 def work(job):
-    """job = ("expr", first index, [node, ...]) | ("lits", ...)"""
-    if job[0] == "lits":
-        return work_lits(job)
-    _, base, nodes = job
+    """job = ("expr", first index, [(tree, printer), ...], {"variant": v, "more": bool}) | ("lits", ...)"""
+    import warnings
+    t0 = sum(os.times()[:4])
+    with warnings.catch_warnings():
+        warnings.simplefilter("ignore")         # cdef() warns about '"' (a string literal?) in a character constant
+        if job[0] == "lits":
+            r = work_lits(job)
+        else:
+            r = work_expr(job)
+    return r + (sum(os.times()[:4]) - t0,)      # CPU seconds incl. gcc (logged only)
+
+
+def work_expr(job):
+    _, base, entries, opts = job
+    variant, more = opts.get("variant"), bool(opts.get("more"))
     counts = {}
 
     def cnt(k, n=1):
         counts[k] = counts.get(k, 0) + n
     items, info = [], {}
-    for k, e in enumerate(nodes):
+    for k, (e, printer) in enumerate(entries):
         i = base + k
         try:
             t, v, fl = evaluate(e)
         except UB as u:
             cnt("excluded_undefined_" + str(u))
             continue
-        txt = text_of(e)
-        sites = sites_for(v)
+        txt = text_of(e, printer)
+        sites = sites_for(v, e, more)
         items.append((i, txt, sites))
-        info[i] = (e, t, v, fl)
+        info[i] = (e, t, v, fl, printer)
         for s in sites:
             cnt("site_" + s)
         for f in fl:
             cnt("class_" + f)
         if nops(e):
             cnt("defined_with_operator")
+        if printer != "min":
+            cnt("printer_" + printer)
+        if variant:
+            cnt("prelude_" + variant)
         cnt("result_type_" + TNAME[t].replace(" ", "_"))
         if v < 0:
             cnt("value_negative")
     viol, samples = [], []
     if not items:
-        return len(nodes), 0, 0, counts, viol, samples
-    ref = gcc_values(items)
+        return len(entries), 0, 0, counts, viol, samples
+    ref = gcc_values(items, variant)
     want = {}
     T = types()
     for i, txt, sites in items:
-        e, t, v, fl = info[i]
+        e, t, v, fl, printer = info[i]
         r = ref[i]
         rank, signed, bits = T[t]
         if (r["value"], r["size"] * 8, r["signed"]) != (v, bits, signed):
             raise InfraError("typed evaluator disagrees with gcc on %r: evaluator %r %s, gcc %r" % (
                 txt, v, TNAME[t], r))
-        if r["enum"] != v or ("array" in sites and r["array"] != v) or ("bitfield" in sites and r["bitfield"] != v):
+        if any(r[s] != v for s in sites):
             raise InfraError("gcc's value of %r differs between usage sites: %r" % (txt, r))
-        want[i] = {"enum": v, "array": v, "bitfield": v}
+        want[i] = v
     out = []
     seen = {}
-    ffi_inline = run_mode("inline", items, want, out, seen=seen)
-    run_abi(items, want, out, ffi_inline, seen)
+    # arrays of 2^31 items or more: declared in a second in-line FFI (and in the API module), so that the
+    # first in-line FFI is one that the out-of-line ABI emitter accepts and can be emitted from
+    small = [(i, t, [s for s in sites if s != "bigarray"]) for i, t, sites in items]
+    big = [(i, t, ["bigarray"]) for i, t, sites in items if "bigarray" in sites]
+    ffi_inline = run_mode("inline", small, want, out, seen=seen, variant=variant)
+    if big:
+        cnt("bigarray_not_declared_in_out_of_line_abi_mode", len(big))
+        refused = set(i for m, i, site, kind, _, _ in out if kind == "rejected")
+        out2 = []
+        run_mode("inline", big, want, out2, variant=variant)
+        # (the enumerator declared next to each array was already judged in the first FFI)
+        out += [o for o in out2 if o[2] == "bigarray" or (o[3] == "rejected" and o[1] not in refused)]
+    run_abi(small, want, out, ffi_inline, seen, variant)
     # batching only: what cdef() itself refused in-line is declared alone again (it would make
     # the whole module's cdef() fail and force a search by halving, every step a compilation)
     refused = set(i for m, i, site, kind, _, _ in out if m == "inline" and kind == "rejected")
     for it in items:
         if it[0] in refused:
-            run_mode("api", [it], want, out)
+            run_mode("api", [it], want, out, variant=variant)
     rest = [it for it in items if it[0] not in refused]
     if rest:
-        run_mode("api", rest, want, out)
+        run_mode("api", rest, want, out, variant=variant)
     bad_idx = set()
     for mode, i, site, kind, got, exp in out:
-        e, t, v, fl = info[i]
+        e, t, v, fl, printer = info[i]
         bad_idx.add(i)
-        viol.append(({"kind": kind, "cause": cause_of(fl), "site": site, "mode": mode},
-                     {"expr": e, "text": text_of(e), "site": site, "mode": mode, "kind": kind,
-                      "observed": got, "gcc": v, "c_type": TNAME[t], "flags": sorted(fl)}))
+        sig = {"kind": kind, "cause": cause_of(fl), "site": site, "mode": mode}
+        # distinctive keys for the families added after the audit (absent for the original ones)
+        if variant:
+            sig["prelude"] = variant
+        if printer != "min":
+            sig["printer"] = printer
+        viol.append((sig,
+                     {"expr": e, "text": text_of(e, printer), "site": site, "mode": mode, "kind": kind,
+                      "observed": got, "gcc": v, "c_type": TNAME[t], "flags": sorted(fl),
+                      "printer": printer, "variant": variant, "more": more}))
     nflag_ok = 0
     for i, txt, sites in items:
         fl = info[i][3]
@@ -714,39 +1065,47 @@ def work(job):
             nflag_ok += 1
     cnt("flagged_root_cause_but_cffi_agrees", nflag_ok)
     for i, txt, sites in items[:2]:
-        samples.append({"expr": txt, "gcc": info[i][2], "c_type": TNAME[info[i][1]], "sites": sites})
-    nontriv = sum(1 for i, _, _ in items if nops(info[i][0]))
-    return len(nodes), len(items), nontriv, counts, viol, samples
+        sm = {"expr": txt, "gcc": info[i][2], "c_type": TNAME[info[i][1]], "sites": sites}
+        if variant:
+            sm["prelude"] = variant
+        samples.append(sm)
+    nontriv = sum(1 for i, _, _ in items if nops(info[i][0]) or names_in(info[i][0]))
+    return len(entries), len(items), nontriv, counts, viol, samples
 
 
 # ---- '#define NAME literal' and 'static const T NAME = literal' ----------------------------------
 
 def work_lits(job):
-    _, lits = job
+    """job = ("lits", literals, types, with_define, extra_forms)"""
+    _, lits, ctypes_, with_define, extra_forms = job
     counts = {}
 
     def cnt(k, n=1):
         counts[k] = counts.get(k, 0) + n
     T = types()
-    cases = []          # (name, cdef line, c value expr, node, kind)
+    cases = []          # (name, cdef line, c value expr, node, kind, type, form)
     n = 0
     for t in lits:
         for sign in ("", "-"):
             node = lit(t) if not sign else ("U", "-", lit(t))
             txt = sign + t
-            cases.append(("D_%d" % n, "#define D_%d %s\n" % (n, txt), "(%s)" % txt, node, "define", None))
-            for j, ct in enumerate(CONST_TYPES):
-                cases.append(("K_%d_%d" % (n, j), "static const %s K_%d_%d = %s;\n" % (ct, n, j, txt),
-                              "((%s)(%s))" % (ct, txt), node, "static_const", ct))
+            if with_define:
+                cases.append(("D_%d" % n, "#define D_%d %s\n" % (n, txt), "(%s)" % txt, node, "define", None, None))
+            j = 0
+            for ct in ctypes_:
+                for form in [FORM0] + (list(extra_forms) if ct in FORM_TYPES else []):
+                    nm = "K_%d_%d" % (n, j)
+                    j += 1
+                    cases.append((nm, form % (ct, nm, txt), "((%s)(%s))" % (ct, txt), node, "static_const", ct, form))
             n += 1
     cells = []
-    for name, line, cexpr, node, kind, ct in cases:
+    for name, line, cexpr, node, kind, ct, form in cases:
         txt = text_of(node)
         cells.append("%s < 0, (unsigned long long)%s, (%s) < 0, (unsigned long long)(%s)" % (cexpr, cexpr, txt, txt))
-    src = "const unsigned long long c09_tab[] = {\n" + ",\n".join(cells) + "\n};\n"
+    src = CONST_INCLUDES + CONST_PRELUDE + "const unsigned long long c09_tab[] = {\n" + ",\n".join(cells) + "\n};\n"
     tab = _load_table(src, "c09_tab", 4 * len(cases))
     used, want, info = [], {}, {}
-    for k, (name, line, cexpr, node, kind, ct) in enumerate(cases):
+    for k, (name, line, cexpr, node, kind, ct, form) in enumerate(cases):
         c = tab[4 * k:4 * k + 4]
         stored, exprv = _sv(c[0], c[1]), _sv(c[2], c[3])
         try:
@@ -761,14 +1120,18 @@ def work_lits(job):
             continue
         used.append((name, line))
         want[name] = exprv
-        info[name] = (node, kind, ct, fl, t)
+        info[name] = (node, kind, ct, fl, t, form)
         cnt("site_" + kind)
-    text = "".join(line for _, line in used)
+        if ct in CONST_TYPES2:
+            cnt("static_const_type_" + ct.replace(" ", "_"))
+        if form is not None and form != FORM0:
+            cnt("static_const_form_" + (form % ("T", "K", "v")).strip().replace(" ", "_"))
     out = []
 
     def go(mode, sub):
         try:
-            ffi, lib, has_ic = open_mode(mode, "".join(line for _, line in sub), "lit")
+            ffi, lib, has_ic = open_mode(mode, CONST_PRELUDE + "".join(line for _, line in sub), "lit",
+                                         csource_prefix=CONST_INCLUDES)
         except Exception as e:
             if len(sub) == 1:
                 out.append((mode, sub[0][0], "rejected", [_err(e)]))
@@ -795,11 +1158,14 @@ def work_lits(job):
     viol = []
     lines = dict(used)
     for mode, name, kind, got in out:
-        node, site, ct, fl, t = info[name]
-        viol.append(({"kind": kind, "cause": cause_of(fl), "site": site, "mode": mode},
+        node, site, ct, fl, t, form = info[name]
+        sig = {"kind": kind, "cause": cause_of(fl), "site": site, "mode": mode}
+        if ct in CONST_TYPES2 or (form is not None and form != FORM0):
+            sig["const_decl"] = "%s/%s" % (ct, (form % ("T", "K", "v")).strip())   # families added after the audit
+        viol.append((sig,
                      {"literal_site": True, "decl": lines[name], "expr": node, "text": text_of(node), "site": site,
-                      "const_type": ct, "mode": mode, "kind": kind, "observed": got, "gcc": want[name],
-                      "flags": sorted(fl)}))
+                      "const_type": ct, "form": form, "mode": mode, "kind": kind, "observed": got,
+                      "gcc": want[name], "flags": sorted(fl)}))
     samples = [{"decl": l.strip(), "gcc": want[nm]} for nm, l in used[:2]]
     return len(cases), len(used), len(used), counts, viol, samples
 
@@ -809,31 +1175,53 @@ def work_lits(job):
 def run(ctx):
     types()
     fam = families(ctx)
+    # debugging aid (detection experiments): --opt only=I1,II,lits runs these families alone; such a run is
+    # not the check and says so in its evidence
+    only = getattr(ctx, "opts", {}).get("only")
+    only = set(only.split(",")) if only else None
+    if only:
+        fam = [f for f in fam if f[0].split()[0] in only]
     seen = {}
-    order = []
+    groups = {}             # (variant, more_sites) -> [(tree, printer)]
     famsizes = []
-    for label, nodes in fam:
+    for label, key, entries in fam:
         new = 0
-        for e in nodes:
-            t = text_of(e)
-            if t not in seen:
-                seen[t] = e
-                order.append(e)
+        for e, pr in entries:
+            k = (text_of(e, pr), key[0])
+            if k not in seen:           # the same text is placed once per prelude variant ...
+                seen[k] = key
+                groups.setdefault(key, []).append((e, pr))
                 new += 1
-        famsizes.append((label, len(nodes), new))
-        ctx.log("%s: %d trees, %d new distinct texts" % (label, len(nodes), new))
-    jobs = [("lits", [t for t in L20 + LX if t[0] != "'"])]
-    for i in range(0, len(order), BLOCK):
-        jobs.append(("expr", i, order[i:i + BLOCK]))
-    ctx.log("%d distinct expressions, %d blocks" % (len(order), len(jobs)))
+            elif key[1] and not seen[k][1]:
+                raise InfraError("family order: %r would lose its additional sites" % (k,))
+        famsizes.append((label, len(entries), new))
+        ctx.log("%s: %d trees, %d new distinct texts" % (label, len(entries), new))
+    nolit = [t for t in L20 + LX if t[0] != "'"]
+    jobs = []
+    nexpr = 0
+    # the groups whose blocks take longest first (two modules per mode for "included"); blocks of equal size
+    for key in sorted(groups, key=lambda k: (VARIANTS.index(k[0]), k[1]), reverse=True):
+        entries = groups[key]
+        nb = -(-len(entries) // BLOCK)
+        size = -(-len(entries) // nb)
+        for i in range(0, len(entries), size):
+            jobs.append(("expr", nexpr + i, entries[i:i + size], {"variant": key[0], "more": key[1]}))
+        nexpr += len(entries)
+    if not only or "lits" in only:
+        jobs += [("lits", nolit, CONST_TYPES, True, FORMS_EXTRA), ("lits", nolit, CONST_TYPES2, False, FORMS_EXTRA)]
+    ctx.log("%d distinct (expression text, prelude variant) pairs, %d blocks" % (nexpr, len(jobs)))
     tot = defined = nontriv = 0
+    cpus = {}
     for job, r in pool.pmap(work, [[j] for j in jobs], item_timeout=1500):
         if isinstance(r, pool.WorkerError):
             raise InfraError("worker failed: %s" % r.tb)
         if isinstance(r, pool.Crash):
             ctx.violation({"kind": "crash"}, {"job": job, "how": r.describe()})
             continue
-        n, nd, nt, counts, viol, samples = r
+        n, nd, nt, counts, viol, samples, cpu = r
+        gk = "lits" if job[0] == "lits" else "%s/%s" % (job[3]["variant"], "more" if job[3]["more"] else "base")
+        c0 = cpus.get(gk, (0, 0.0))
+        cpus[gk] = (c0[0] + 1, c0[1] + cpu)
         tot += n
         defined += nd
         nontriv += nt
@@ -843,25 +1231,37 @@ def run(ctx):
             ctx.sample(s)
         for sig, detail in viol:
             ctx.violation(sig, detail)
+    ctx.log("CPU seconds by group (blocks, seconds): %s" % ", ".join(
+        "%s: %d, %.0f" % (k, v[0], v[1]) for k, v in sorted(cpus.items())))
     cov = {
         "evaluations": defined * len(MODES),
         "distinct_nontrivial": nontriv,
         "rule": "families (trees, new distinct texts): %s; plus every non-character literal with and without '-' as "
-                "'#define' and as 'static const T' for T in %s; every expression is an enumerator value, an array "
-                "length when 0 <= v < 2^31 and a bitfield width when 1 <= v <= 64; non-trivial = C-defined expression "
-                "containing at least one operator, or a literal-site declaration (distinct texts counted); excluded: "
+                "'#define' and as 'static const T' for T in %s (for T in %s also as 'const T K = v;' and "
+                "'static T const K = v;'; td_u16b is a typedef of a typedef of unsigned short); every expression is "
+                "an enumerator value, an array length when 0 <= v < 2^62 (from 2^31 on: in-line and API mode only) "
+                "and a bitfield width when 1 <= v <= 64; the families S0, C0, IE, II also as inner dimension "
+                "'char[2][E]', as 'char(*)[E]' member and parameter when 1 <= v < 2^30 and as 'int' bitfield width "
+                "when 1 <= v <= 32; an expression that mentions P5 / P6 also inside 'enum { P5_n = 5, P6_n, B_n = E, "
+                "C_n }' (B_n and the implicit C_n are read); names stand for %s; "
+                "non-trivial = C-defined expression containing at least one operator or name, or a literal-site "
+                "declaration (distinct texts counted); excluded: "
                 "expressions the typed evaluator classifies as undefined behaviour, and static const declarations whose "
                 "type cannot hold the literal's value" % (
-                    "; ".join("%s: %d, %d" % f for f in famsizes), CONST_TYPES),
-        "exhaustive": True,
+                    "; ".join("%s: %d, %d" % f for f in famsizes), CONST_TYPES + CONST_TYPES2, FORM_TYPES,
+                    PRELUDE_CDEF.replace("\n", " ").strip()),
+        "exhaustive": not only,
         "expressions_enumerated": tot,
         "expressions_defined": defined,
         "bound": {"families": [f[0] for f in famsizes]},
     }
     return ctx.finish(cov, ["gcc 12 evaluates every expression; the typed evaluator only classifies (UB, root cause) and "
                             "is checked against gcc on value, size and signedness of every defined expression",
-                            "array lengths >= 2^31 are not placed (documented limit of the out-of-line emitter)",
-                            "static const: compared only when the declared type can hold the literal's value"])
+                            "array lengths >= 2^31 are not declared in out-of-line ABI mode (documented limit of that "
+                            "emitter, which refuses the whole module), lengths >= 2^62 nowhere",
+                            "static const: compared only when the declared type can hold the literal's value",
+                            "a 'static const T NAME' used inside a later expression is given to gcc as '((T)literal)': "
+                            "in C such an object is not an integer constant expression, its value and promoted type are"])
 
 
 def _tup(x):
@@ -869,18 +1269,28 @@ def _tup(x):
 
 
 def replay(detail):
-    node = _tup(detail["expr"])
     types()
+    if "job" in detail:             # a block that killed its worker: run it again in this process
+        job = detail["job"]
+        if job[0] == "expr":
+            job = ("expr", job[1], [(_tup(e), pr) for e, pr in job[2]], job[3])
+        work(tuple(job))
+        print("the block completed without a crash")
+        return 0
+    node = _tup(detail["expr"])
+    printer = detail.get("printer") or "min"
     if detail.get("literal_site"):
         t = node[1] if node[0] == "L" else node[2][1]
-        r = work_lits(("lits", [t]))
+        ct, form = detail.get("const_type"), detail.get("form")
+        r = work(("lits", [t], [ct] if ct else CONST_TYPES[:1], True, [form] if form and form != FORM0 else []))
     else:
-        r = work(("expr", 0, [node]))
+        r = work(("expr", 0, [(node, printer)], {"variant": detail.get("variant"), "more": detail.get("more")}))
     hit = 0
-    print("expression:", text_of(node))
+    print("expression:", text_of(node, printer))
     for sig, d in r[4]:
         if sig["site"] == detail["site"] and sig["mode"] == detail["mode"] and \
-                d.get("const_type") == detail.get("const_type") and d["text"] == detail["text"]:
+                d.get("const_type") == detail.get("const_type") and d.get("form") == detail.get("form") and \
+                d["text"] == detail["text"]:
             print("MISMATCH mode=%s site=%s: observed %r, gcc %r (cause class: %s)" % (
                 sig["mode"], sig["site"], d["observed"], d["gcc"], sig["cause"]))
             hit += 1
